@@ -188,6 +188,8 @@ class Normalizer:
         self.keep = keep
         self.keep_types = set(keep_types)
         self._struct_memo = {}
+        self._const_arrays = {}
+        self._wt_memo = {}
         self.bodies = {}        # (unit, def) -> body json
         self.by_def = {}        # def -> [(unit, body)]
         for fname, d in raw.items():
@@ -1199,6 +1201,450 @@ class Normalizer:
         self.notes.append("N5 %s desugared into a loop in %s" % (c.rsplit("::", 1)[-1], body["def"]))
         return True
 
+    # ------------------------------------------------------------------ N5b: find / any / all as loops
+    SEARCHES = {ITER + "find": "find", ITER + "any": "any", ITER + "all": "all"}
+
+    def try_search_loop(self, unit, body, bb):
+        """`iter.find(p)` / `any(p)` / `all(p)` as the loop they stand for: next(); test; leave at the first hit."""
+        t = body["blocks"][bb]["term"]
+        mode = self.SEARCHES.get(t["callee"].get("def"))
+        if mode is None or t.get("target") is None or len(t["args"]) != 2 or t["args"][0]["k"] == "const":
+            return False
+        fop = t["args"][1]
+        w = self.chase(body, fop)
+        if w is None or w[0] != "closure":
+            return False
+        u, cb = self.lookup(unit, w[1])
+        if cb is None or (u, w[1]) in self.busy or cb.get("coroutine") or cb["arg_count"] != 2:
+            return False
+        span, dest, target = t["span"], t["dest"], t["target"]
+        saved = (len(body["locals"]), len(body["blocks"]))
+        itop = t["args"][0]
+        ity = itop["p"]["ty"]
+        arg_ty = cb["locals"][2]["ty"]                 # `&Item` for find, `Item` for any / all
+        item_ty = arg_ty[1:].lstrip() if mode == "find" and arg_ty.startswith("&") else arg_ty
+        if mode == "find" and not arg_ty.startswith("&"):
+            return False
+        nxty = "%s<%s>" % (OPTION, item_ty)
+        it = self.new_local(body, ity, "iterator of desugared %s" % mode)
+        nx = self.new_local(body, nxty, "next() of desugared %s" % mode)
+        itr = self.new_local(body, "&mut " + ity, "&mut iterator")
+        d1 = self.new_local(body, "isize", "discriminant of next()")
+        r = self.new_local(body, "bool", "result of the %s predicate" % mode)
+        head = self.new_block(body, [self.assign(self.place(itr, "&mut " + ity), {"k": "ref", "bk": "mut", "p": self.place(it, ity)}, span)], None)
+        chk = self.new_block(body, [self.assign(self.place(d1, "isize"), {"k": "discriminant", "p": self.place(nx, nxty), "adt": OPTION,
+                                    "variants": [{"name": n_, "idx": i_, "discr": str(i_)} for i_, n_ in enumerate(VARIANTS[OPTION])]}, span)], None)
+        body["blocks"][head]["term"] = self.synth_call(body, self.ITER + "next", [self.mv(self.place(itr, "&mut " + ity))], self.place(nx, nxty), chk, span)
+        body["blocks"][head]["term"]["callee"]["trait"] = "core::iter::traits::iterator::Iterator"
+        un = self.new_block(body, [], {"k": "unreachable", "span": span})
+        item_place = self.variant_payload(self.place(nx, nxty), OPTION, "Some", 1, item_ty)
+
+        def const_bool(v):
+            return self.use({"k": "const", "ty": "bool", "val": v})
+        if mode == "find":
+            hit = self.new_block(body, [self.assign(copy.deepcopy(dest), self.agg(OPTION, "Some", [self.mv(copy.deepcopy(item_place))]), span)],
+                                 {"k": "goto", "target": target, "span": span})
+            miss_stmt = self.assign(copy.deepcopy(dest), self.agg(OPTION, "None", []), span)
+            on_true, on_false = hit, head
+        elif mode == "any":
+            hit = self.new_block(body, [self.assign(copy.deepcopy(dest), const_bool(True), span)], {"k": "goto", "target": target, "span": span})
+            miss_stmt = self.assign(copy.deepcopy(dest), const_bool(False), span)
+            on_true, on_false = hit, head
+        else:
+            hit = self.new_block(body, [self.assign(copy.deepcopy(dest), const_bool(False), span)], {"k": "goto", "target": target, "span": span})
+            miss_stmt = self.assign(copy.deepcopy(dest), const_bool(True), span)
+            on_true, on_false = head, hit
+        after = self.new_block(body, [], {"k": "switch", "discr": self.mv(self.place(r, "bool")), "arms": [{"v": "0", "t": on_false}], "otherwise": on_true,
+                                          "span": span, "desugared": mode})
+        if mode == "find":
+            ir = self.new_local(body, arg_ty, "&item handed to the find predicate")
+            pre = self.new_block(body, [self.assign(self.place(ir, arg_ty), {"k": "ref", "bk": "shared", "p": copy.deepcopy(item_place)}, span)], None)
+            step = self.emit_invoke(unit, body, fop, w, [self.mv(self.place(ir, arg_ty))], self.place(r, "bool"), after, span)
+            if step is not None:
+                body["blocks"][pre]["term"] = {"k": "goto", "target": step, "span": span}
+                step = pre
+        else:
+            step = self.emit_invoke(unit, body, fop, w, [self.mv(copy.deepcopy(item_place))], self.place(r, "bool"), after, span)
+        if step is None:
+            del body["locals"][saved[0]:]
+            del body["blocks"][saved[1]:]
+            return False
+        done = self.new_block(body, [miss_stmt], {"k": "goto", "target": target, "span": span})
+        body["blocks"][chk]["term"] = {"k": "switch", "discr": self.mv(self.place(d1, "isize")), "arms": [{"v": "0", "t": done}, {"v": "1", "t": step}],
+                                       "otherwise": un, "span": span, "desugared": mode}
+        blk = body["blocks"][bb]
+        blk["stmts"].append(self.assign(self.place(it, ity), self.use(itop), span))
+        blk["term"] = {"k": "goto", "target": head, "span": span, "desugared": mode}
+        self.consumed.add((u, w[1]))
+        self.notes.append("N5 %s desugared into a loop in %s" % (mode, body["def"]))
+        return True
+
+    # ------------------------------------------------------------------ N11: loops over a literal array / slice
+    ARRAY_ITERS = ("core::slice::iter::<impl core::iter::traits::collect::IntoIterator for &'a [T]>::into_iter",
+                   "core::array::iter::<impl core::iter::traits::collect::IntoIterator for [T; N]>::into_iter",
+                   "core::array::<impl core::iter::traits::collect::IntoIterator for &'a [T; N]>::into_iter",
+                   "core::slice::<impl [T]>::iter", "core::iter::traits::collect::IntoIterator::into_iter")
+    ARRAY_NEXT = ("<core::slice::iter::Iter<'a, T> as core::iter::traits::iterator::Iterator>::next",
+                  "<core::array::iter::IntoIter<T, N> as core::iter::traits::iterator::Iterator>::next",
+                  "core::iter::traits::iterator::Iterator::next")
+
+    def literal_array(self, body, op, depth=0):
+        """Element operands of the array literal an iterator source denotes (through borrows, unsizing, moves), or None."""
+        if depth > 12 or op is None:
+            return None
+        if op["k"] == "const":
+            return self.const_array(body, op)
+        p = op["p"]
+        if any(e["k"] != "deref" for e in p["proj"]):
+            return None
+        l = p["l"]
+        if 1 <= l <= body["arg_count"]:
+            return None
+        ds = self.defs_of(body, l)
+        if len(ds) != 1:
+            return None
+        kind, bbi, node = ds[0]
+        if kind == "call":
+            if node["callee"].get("def") in self.ARRAY_ITERS and node["args"]:
+                return self.literal_array(body, node["args"][0], depth + 1)
+            return None
+        rv = node["rv"]
+        if rv["k"] == "use":
+            return self.literal_array(body, rv["op"], depth + 1)
+        if rv["k"] == "cast" and rv["ck"].startswith("ptr:Unsize"):
+            return self.literal_array(body, rv["op"], depth + 1)
+        if rv["k"] == "ref":
+            return self.literal_array(body, {"k": "copy", "p": rv["p"]}, depth + 1)
+        if rv["k"] == "aggregate" and rv["ak"] == "array":
+            # the array itself must not be written through afterwards
+            for b in body["blocks"]:
+                for st in b["stmts"]:
+                    if st["k"] == "assign" and ((st["p"]["l"] == l and st["p"]["proj"]) or
+                                                (st["rv"]["k"] in ("ref", "addr") and st["rv"].get("p", {}).get("l") == l and st["rv"].get("bk") == "mut")):
+                        return None
+            return list(rv["ops"])
+        return None
+
+    def const_array(self, body, op):
+        """Elements of a named array constant whose initialiser is straight-line construction of literals
+        (`const ALL: [Kind; 2] = [Kind::A, Kind::B]`): the initialiser's statements are re-created in `body` (fresh locals,
+        appended to the entry block -- they only build constants) and the element operands returned."""
+        d = op.get("def")
+        if not d:
+            return None
+        key = (id(body), d)
+        if key in self._const_arrays:
+            return self._const_arrays[key]
+        res = None
+        u, cb = self.lookup(self._unit, d)
+        if cb is not None and str(cb.get("kind", "")).startswith(("Const", "AssocConst")):
+            blocks = [x for x in cb["blocks"] if not x["cleanup"]]
+            if len(blocks) == 1 and blocks[0]["term"]["k"] == "return" and all(
+                    st["k"] == "assign" and not st["p"]["proj"] and (
+                        (st["rv"]["k"] == "aggregate" and st["rv"]["ak"] in ("adt", "array", "tuple")) or
+                        (st["rv"]["k"] == "use")) for st in blocks[0]["stmts"]):
+                off = len(body["locals"])
+                stmts = copy.deepcopy(blocks[0]["stmts"])
+                _remap(stmts, off, 0)
+                arr = [st for st in stmts if st["p"]["l"] == off and st["rv"]["k"] == "aggregate" and st["rv"]["ak"] == "array"]
+                if len(arr) == 1 and sum(1 for st in stmts if st["p"]["l"] == off) == 1:
+                    for l_ in copy.deepcopy(cb["locals"]):
+                        l_["i"] += off
+                        l_["from"] = d
+                        body["locals"].append(l_)
+                    body["blocks"][0]["stmts"] = [st for st in stmts if st is not arr[0]] + body["blocks"][0]["stmts"]
+                    res = list(arr[0]["rv"]["ops"])
+        self._const_arrays[key] = res
+        return res
+
+    def try_unroll(self, unit, body, bb):
+        """`for x in [a, b, c]` / `for x in &[..]` / `slice.iter()` over an array literal of known length: the loop body once per
+        element, in order (a table-driven sequence of statements is the sequence of statements)."""
+        blk = body["blocks"][bb]
+        t = blk["term"]
+        if t["k"] != "call" or t["callee"].get("def") not in self.ARRAY_NEXT or t.get("target") is None or len(t["args"]) != 1 \
+                or t["args"][0]["k"] == "const" or t["dest"]["proj"]:
+            return False
+        dty = t["dest"]["ty"]
+        if not dty.startswith(OPTION + "<"):
+            return False
+        item_ty = dty[len(OPTION) + 1:-1]
+        # the iterator local behind `&mut iter`
+        itl = None
+        cur = t["args"][0]
+        for _ in range(6):
+            p = cur["p"]
+            if any(e["k"] != "deref" for e in p["proj"]):
+                return False
+            ds = self.defs_of(body, p["l"])
+            if len(ds) != 1:
+                return False
+            if ds[0][0] == "stmt" and ds[0][2]["rv"]["k"] == "ref":
+                rp = ds[0][2]["rv"]["p"]
+                if rp["proj"] and not all(e["k"] == "deref" for e in rp["proj"]):
+                    return False
+                nds = self.defs_of(body, rp["l"])
+                if len(nds) == 1 and not (nds[0][0] == "stmt" and nds[0][2]["rv"]["k"] == "ref"):
+                    itl = rp["l"]
+                    break
+                cur = {"k": "copy", "p": rp}
+                continue
+            if ds[0][0] == "stmt" and ds[0][2]["rv"]["k"] == "use" and ds[0][2]["rv"]["op"]["k"] != "const":
+                cur = ds[0][2]["rv"]["op"]
+                continue
+            return False
+        if itl is None:
+            return False
+        elems = self.literal_array(body, {"k": "copy", "p": self.place(itl, "")})
+        if elems is None or len(elems) > 8:
+            return False
+        by_ref = item_ty.startswith("&")
+        # next() is called on this iterator only here
+        ncalls = 0
+        for b in body["blocks"]:
+            tt = b["term"]
+            if b["cleanup"] or tt["k"] != "call" or b.get("unrolled"):
+                continue
+            if tt["callee"].get("def") in self.ARRAY_NEXT and tt["args"] and tt["args"][0]["k"] != "const":
+                ncalls += 1 if self._iter_of(body, tt["args"][0]) == itl else 0
+        if ncalls != 1:
+            return False
+        # the loop: blocks on a cycle through the header
+        def succs(i):
+            tt = body["blocks"][i]["term"]
+            if tt["k"] == "switch":
+                return [a["t"] for a in tt["arms"]] + [tt["otherwise"]]
+            return [x for x in (tt.get("target"),) if isinstance(x, int)]
+        fwd, st = set(), [bb]
+        while st:
+            i = st.pop()
+            if i in fwd:
+                continue
+            fwd.add(i)
+            st.extend(succs(i))
+        preds = {}
+        for i in fwd:
+            for j in succs(i):
+                preds.setdefault(j, []).append(i)
+        back, st = set(), [bb]
+        while st:
+            i = st.pop()
+            if i in back:
+                continue
+            back.add(i)
+            st.extend(x for x in preds.get(i, []) if x in fwd)
+        L = fwd & back
+        if bb not in L or len(L) < 2 or len(L) > 400 or len(L) * len(elems) > 1500:
+            return False
+        if any(body["blocks"][i]["cleanup"] for i in L):
+            return False
+        # the switch on next()'s result decides staying in / leaving the loop
+        chk = t["target"]
+        ct = body["blocks"][chk]["term"]
+        if ct["k"] != "switch":
+            return False
+        some_t = [a["t"] for a in ct["arms"] if a["v"] == "1"]
+        none_t = [a["t"] for a in ct["arms"] if a["v"] == "0"]
+        if len(some_t) != 1 or len(none_t) != 1 or some_t[0] not in L or none_t[0] in L:
+            return False
+        # the ways out of the loop other than exhaustion (`return Err(..)`, `break`) up to where they meet code that is also
+        # reached after the loop: copied with the iteration they leave (their values belong to that iteration)
+        after_loop, st = set(), [none_t[0]]
+        while st:
+            i = st.pop()
+            if i in after_loop or i in L:
+                continue
+            after_loop.add(i)
+            st.extend(succs(i))
+        tails, st = set(), [j for i in L for j in succs(i) if j not in L]
+        while st:
+            i = st.pop()
+            if i in tails or i in L or i in after_loop or body["blocks"][i]["cleanup"]:
+                continue
+            tails.add(i)
+            st.extend(succs(i))
+        allpreds = {}
+        for b in body["blocks"]:
+            if b["cleanup"]:
+                continue
+            for j in succs(b["i"]):
+                allpreds.setdefault(j, set()).add(b["i"])
+        shrink = True
+        while shrink:
+            shrink = False
+            for i in list(tails):
+                if not allpreds.get(i, set()) <= (L | tails):
+                    tails.discard(i)
+                    shrink = True
+        if len(L | tails) * len(elems) > 2500:
+            tails = set()
+        L = L | tails
+        # locals private to one iteration: every occurrence inside L, and never read before written on a path from the header
+        occ_in, occ_out = {}, set()
+        for b in body["blocks"]:
+            if b["cleanup"]:
+                continue          # (drops on the unwind paths: shared, and not read by any analysis)
+            tgt = occ_in if b["i"] in L else None
+            for pl in self._places_in(b["stmts"]) + self._places_in(b["term"]):
+                ls = [pl["l"]] + [e["l"] for e in pl["proj"] if e.get("k") == "index" and isinstance(e.get("l"), int)]
+                for l_ in ls:
+                    if tgt is None:
+                        occ_out.add(l_)
+                    else:
+                        occ_in.setdefault(l_, 0)
+        private = set(l_ for l_ in occ_in if l_ not in occ_out and l_ != 0 and not (1 <= l_ <= body["arg_count"]) and l_ != itl)
+        private -= self._live_in(body, L, bb, private)
+        # copies
+        span = t["span"]
+        n = len(elems)
+        entry_of = []
+        base_blocks = sorted(L)
+        for k in range(n):
+            lmap = {}
+            for l_ in sorted(private):
+                nl = self.new_local(body, body["locals"][l_]["ty"], "copy %d of _%d in an unrolled loop" % (k, l_))
+                if body["locals"][l_].get("user"):
+                    body["locals"][nl]["user"] = True
+                lmap[l_] = nl
+            for d in list(body.get("debug", [])):
+                if d.get("p") and not d["p"]["proj"] and d["p"]["l"] in lmap:
+                    body["debug"].append({"name": d["name"], "p": self.place(lmap[d["p"]["l"]], d["p"].get("ty", ""))})
+            bmap = {}
+            for i in base_blocks:
+                nb = copy.deepcopy(body["blocks"][i])
+                nb["i"] = len(body["blocks"])
+                nb["unrolled"] = True
+                body["blocks"].append(nb)
+                bmap[i] = nb["i"]
+            for i in base_blocks:
+                nb = body["blocks"][bmap[i]]
+                for pl in self._places_in(nb["stmts"]) + self._places_in(nb["term"]):
+                    if pl["l"] in lmap:
+                        pl["l"] = lmap[pl["l"]]
+                    for e in pl["proj"]:
+                        if e.get("k") == "index" and e.get("l") in lmap:
+                            e["l"] = lmap[e["l"]]
+            entry_of.append((bmap, lmap))
+        for k, (bmap, lmap) in enumerate(entry_of):
+            nxt_head = entry_of[k + 1][0][bb] if k + 1 < n else None
+            for i in base_blocks:
+                nb = body["blocks"][bmap[i]]
+                tt = nb["term"]
+                def remap(x):
+                    if x == bb:                      # back edge: on to the next element (or out)
+                        return nxt_head if nxt_head is not None else "EXIT"
+                    return bmap.get(x, x)
+                if tt["k"] == "switch":
+                    for a in tt["arms"]:
+                        a["t"] = remap(a["t"])
+                    tt["otherwise"] = remap(tt["otherwise"])
+                elif isinstance(tt.get("target"), int) and i != bb:
+                    tt["target"] = remap(tt["target"])
+            # the header copy: next() yields element k
+            hb_ = body["blocks"][bmap[bb]]
+            dest = hb_["term"]["dest"]
+            e = elems[k]
+            if by_ref:
+                if e["k"] == "const":
+                    tl = self.new_local(body, e.get("ty", "?"), "element %d of the array literal" % k)
+                    hb_["stmts"].append(self.assign(self.place(tl, e.get("ty", "?")), self.use(e), span))
+                    src = self.place(tl, e.get("ty", "?"))
+                else:
+                    src = copy.deepcopy(e["p"])
+                rl = self.new_local(body, item_ty, "&element %d" % k)
+                hb_["stmts"].append(self.assign(self.place(rl, item_ty), {"k": "ref", "bk": "shared", "p": src}, span))
+                val = self.mv(self.place(rl, item_ty))
+            else:
+                val = copy.deepcopy(e)
+            hb_["stmts"].append(self.assign(copy.deepcopy(dest), self.agg(OPTION, "Some", [val]), span))
+            hb_["term"] = {"k": "goto", "target": bmap[chk] if chk in bmap else chk, "span": span}
+        # exhausted: next() is None
+        exit_b = self.new_block(body, [self.assign(copy.deepcopy(t["dest"]), self.agg(OPTION, "None", []), span)], {"k": "goto", "target": none_t[0], "span": span})
+        body["blocks"][exit_b]["unrolled"] = True
+        for b in body["blocks"]:
+            tt = b["term"]
+            if tt["k"] == "switch":
+                for a in tt["arms"]:
+                    if a["t"] == "EXIT":
+                        a["t"] = exit_b
+                if tt["otherwise"] == "EXIT":
+                    tt["otherwise"] = exit_b
+            elif tt.get("target") == "EXIT":
+                tt["target"] = exit_b
+        first = entry_of[0][0][bb] if n else exit_b
+        blk["stmts"] = []
+        blk["term"] = {"k": "goto", "target": first, "span": span, "unrolled_loop": n}
+        # (when the array is empty the None arm's own next()-switch is reached through exit_b -> none_t directly)
+        self.prune_unreachable(body)
+        self.notes.append("N11 loop over a %d-element array literal unrolled in %s" % (n, body["def"]))
+        return True
+
+    def _iter_of(self, body, op):
+        cur = op
+        for _ in range(6):
+            p = cur["p"]
+            ds = self.defs_of(body, p["l"])
+            if len(ds) != 1 or ds[0][0] != "stmt":
+                return None
+            rv = ds[0][2]["rv"]
+            if rv["k"] == "ref":
+                rp = rv["p"]
+                nds = self.defs_of(body, rp["l"])
+                if len(nds) == 1 and not (nds[0][0] == "stmt" and nds[0][2]["rv"]["k"] == "ref"):
+                    return rp["l"]
+                cur = {"k": "copy", "p": rp}
+            elif rv["k"] == "use" and rv["op"]["k"] != "const":
+                cur = rv["op"]
+            else:
+                return None
+        return None
+
+    def _live_in(self, body, L, head, cands):
+        """Locals among cands that may be read in the loop before being written, starting at the header."""
+        # per block: use-before-def and def sets
+        ubd, dfs = {}, {}
+        for i in L:
+            b = body["blocks"][i]
+            u, d = set(), set()
+            for st in b["stmts"]:
+                if st["k"] != "assign":
+                    continue
+                for pl in self._places_in(st["rv"]):
+                    if pl["l"] in cands and pl["l"] not in d:
+                        u.add(pl["l"])
+                if st["p"]["proj"]:
+                    if st["p"]["l"] in cands and st["p"]["l"] not in d:
+                        u.add(st["p"]["l"])
+                else:
+                    d.add(st["p"]["l"])
+            tt = b["term"]
+            for key in ("args", "callee", "discr", "cond", "value", "p"):
+                if key in tt:
+                    for pl in self._places_in(tt[key]):
+                        if pl["l"] in cands and pl["l"] not in d:
+                            u.add(pl["l"])
+            if tt["k"] == "call" and not tt["dest"]["proj"]:
+                d.add(tt["dest"]["l"])
+            elif tt["k"] == "call" and tt["dest"]["l"] in cands and tt["dest"]["l"] not in d:
+                u.add(tt["dest"]["l"])
+            ubd[i], dfs[i] = u, d
+        live = {i: set() for i in L}
+        changed = True
+        while changed:
+            changed = False
+            for i in L:
+                tt = body["blocks"][i]["term"]
+                succ = ([a["t"] for a in tt["arms"]] + [tt["otherwise"]]) if tt["k"] == "switch" else [tt.get("target")]
+                out = set()
+                for j in succ:
+                    if j in L:
+                        out |= live[j]
+                new = ubd[i] | (out - dfs[i])
+                if new != live[i]:
+                    live[i] = new
+                    changed = True
+        return live[head]
+
     # ------------------------------------------------------------------ N6: integer ranges as iterators
     RANGE = "core::ops::range::Range"
     REV = "core::iter::adapters::rev::Rev"
@@ -1519,6 +1965,17 @@ class Normalizer:
         blk["term"] = {"k": "goto", "target": t["target"], "span": t["span"]}
         return True
 
+    def try_identity_call(self, body, bb):
+        """`into_iter()` on something that already is an iterator (std's blanket `impl<I: Iterator> IntoIterator for I`)."""
+        t = body["blocks"][bb]["term"]
+        c = t["callee"]
+        if c.get("resolved") != "<I as core::iter::traits::collect::IntoIterator>::into_iter" or t.get("target") is None or len(t["args"]) != 1:
+            return False
+        blk = body["blocks"][bb]
+        blk["stmts"].append(self.assign(copy.deepcopy(t["dest"]), self.use(t["args"][0]), t["span"]))
+        blk["term"] = {"k": "goto", "target": t["target"], "span": t["span"], "desugared": "into_iter (identity)"}
+        return True
+
     def try_int_from(self, body, bb):
         """`i64::from(x)` / `x.into()` between primitive integer types is the lossless widening `x as i64`."""
         t = body["blocks"][bb]["term"]
@@ -1635,6 +2092,7 @@ class Normalizer:
     def struct_fields(self, adt):
         """[(field name, type)] of a workspace struct that is NOT one of the pinned tree's types (a private helper struct
         introduced by a refactoring: `BodyBuffer { data, max_size }`, `BodyLimit(usize)`), else None."""
+        adt = re.sub(r"<('[A-Za-z_][A-Za-z0-9_]*(, )?)+>$", "", adt)      # `Ancestry<'_>`: lifetimes only
         if adt not in self._struct_memo:
             res = None
             if adt not in self.keep_types:
@@ -1712,6 +2170,65 @@ class Normalizer:
         if any(e["k"] not in ("field",) for e in proj):
             return None
         return (p["l"], proj)
+
+    def resolve_place(self, body, p, depth=0):
+        """Follow a place back through the constructions it reads from -- `(*(_a as Some).0).0` with `_a = Some(&_t)`,
+        `_t = (x, y)` is `x` -- to (local, remaining projections); the local is then the value's own home."""
+        l, proj = p["l"], list(p["proj"])
+        while depth < 24:
+            depth += 1
+            if not proj or (1 <= l <= body["arg_count"]) or l == 0:
+                break
+            ds = self.defs_of(body, l)
+            if len(ds) != 1 or ds[0][0] != "stmt":
+                break
+            if self._written_through(body, l):
+                break       # a container that is stored into / mutably borrowed later does not keep the value it was built with
+            rv = ds[0][2]["rv"]
+            if rv["k"] == "use" and rv["op"]["k"] in ("copy", "move"):
+                l, proj = rv["op"]["p"]["l"], list(rv["op"]["p"]["proj"]) + proj
+                continue
+            if rv["k"] == "ref" and proj[0]["k"] == "deref":
+                l, proj = rv["p"]["l"], list(rv["p"]["proj"]) + proj[1:]
+                continue
+            if rv["k"] == "aggregate":
+                if rv["ak"] == "adt" and len(proj) >= 2 and proj[0]["k"] == "downcast" and proj[1]["k"] == "field" \
+                        and proj[0].get("name") == rv.get("variant") and proj[1]["i"] < len(rv["ops"]):
+                    o, rest = rv["ops"][proj[1]["i"]], proj[2:]
+                elif rv["ak"] in ("tuple", "closure", "coroutine", "array") and proj[0]["k"] == "field" and proj[0]["i"] < len(rv["ops"]):
+                    o, rest = rv["ops"][proj[0]["i"]], proj[1:]
+                elif rv["ak"] == "adt" and proj[0]["k"] == "field" and rv.get("variant") is not None and proj[0]["i"] < len(rv["ops"]) \
+                        and not any(e["k"] == "downcast" for e in proj[:1]):
+                    o, rest = rv["ops"][proj[0]["i"]], proj[1:]      # struct field
+                else:
+                    break
+                if o["k"] not in ("copy", "move"):
+                    break
+                l, proj = o["p"]["l"], list(o["p"]["proj"]) + rest
+                continue
+            break
+        return l, proj
+
+    def _written_through(self, body, l):
+        """Is some part of local l assigned after its construction, or l (or a part) borrowed mutably?"""
+        key = (id(body), l, len(body["blocks"]))
+        if key in self._wt_memo:
+            return self._wt_memo[key]
+        res = False
+        for b in body["blocks"]:
+            for st in b["stmts"]:
+                if st["k"] != "assign":
+                    continue
+                if st["p"]["l"] == l and st["p"]["proj"]:
+                    res = True
+                rv = st["rv"]
+                if rv["k"] in ("ref", "addr") and rv.get("p", {}).get("l") == l and rv.get("bk") != "shared":
+                    res = True
+            t = b["term"]
+            if t["k"] == "call" and t["dest"]["l"] == l and t["dest"]["proj"]:
+                res = True
+        self._wt_memo[key] = res
+        return res
 
     def split_structs(self, body):
         """References to (fields of) a private struct local are followed to the local, then the struct local is replaced by
@@ -1811,17 +2328,17 @@ class Normalizer:
                         if whole_dst:
                             if dst["proj"]:
                                 good = False; why = ("dst-proj", b["i"])
-                            elif rv["k"] == "aggregate" and rv.get("ak") == "adt" and rv.get("adt") == locs[s_]["ty"]:
+                            elif rv["k"] == "aggregate" and rv.get("ak") == "adt" and rv.get("adt") == self._lt(locs[s_]["ty"]):
                                 pass
                             elif rv["k"] == "use" and rv["op"]["k"] in ("copy", "move") and not rv["op"]["p"]["proj"] and rv["op"]["p"]["l"] in ok \
-                                    and locs[rv["op"]["p"]["l"]]["ty"] == locs[s_]["ty"]:
+                                    and self._lt(locs[rv["op"]["p"]["l"]]["ty"]) == self._lt(locs[s_]["ty"]):
                                 pass
                             else:
                                 good = False; why = ("whole-def", b["i"], rv["k"])
                         if whole_src:
                             if any(x["proj"] for x in whole_src):
                                 good = False; why = ("src-proj", b["i"])
-                            elif rv["k"] == "use" and not dst["proj"] and dst["l"] in ok and locs[dst["l"]]["ty"] == locs[s_]["ty"]:
+                            elif rv["k"] == "use" and not dst["proj"] and dst["l"] in ok and self._lt(locs[dst["l"]]["ty"]) == self._lt(locs[s_]["ty"]):
                                 pass
                             elif rv["k"] == "ref" and not dst["proj"] and harmless_ref(dst["l"], set()):
                                 carriers[(b["i"], id(st))] = st
@@ -1900,6 +2417,10 @@ class Normalizer:
             print("N10 carrier check failed at", info)
         return False
 
+    @staticmethod
+    def _lt(ty):
+        return re.sub(r"<('[A-Za-z_][A-Za-z0-9_]*(, )?)+>$", "", ty)
+
     def _places_in(self, x):
         out = []
 
@@ -1920,8 +2441,13 @@ class Normalizer:
     def known_variant(self, body, place, depth=0):
         """(adt, variant name) when the place holds a literal enum value on every path (a constant selector handed to a
         spliced helper: `helper(Kind::A)` ... `match kind { Kind::A => .., Kind::B => .. }`)."""
-        if depth > 8 or place["proj"]:
+        if depth > 8:
             return None
+        if place["proj"]:
+            nl, nproj = self.resolve_place(body, place)
+            if nproj:
+                return None
+            place = self.place(nl, place.get("ty", ""))
         l = place["l"]
         if 1 <= l <= body["arg_count"]:
             return None
@@ -1954,12 +2480,12 @@ class Normalizer:
                 continue
             rv = ds[0][2]["rv"]
             sp = rv["p"]
-            if sp["proj"] and sp["proj"][0]["k"] == "deref":
-                # `match *self` / `match self` on a reference (`fn sql(&self)`): the value the reference points to
-                np = self.norm_place(body, sp)
-                if np is None or np[1]:
+            if sp["proj"]:
+                # `match *self` on a reference, a field of a tuple / an element of an unrolled table: the value's own home
+                nl, nproj = self.resolve_place(body, sp)
+                if nproj:
                     continue
-                sp = self.place(np[0], sp.get("ty", ""))
+                sp = self.place(nl, sp.get("ty", ""))
             kv = self.known_variant(body, sp)
             if kv is None or kv[0] != rv.get("adt"):
                 continue
@@ -2016,8 +2542,9 @@ class Normalizer:
                 if not b["cleanup"] and b["term"]["k"] == "call" and len(body["blocks"]) < 4000:
                     self._unit = unit
                     if (self.try_cps_wrapper(unit, body, i) or self.try_inline_fn(unit, body, i) or self.try_fn_call(unit, body, i) or self.try_question_conv(unit, body, i) or self.try_combinator(unit, body, i) or self.try_transpose(body, i) or self.try_option_misc(unit, body, i) or self.try_array_contains(body, i)
-                            or self.try_poll(unit, body, i) or self.try_cmp(body, i) or self.try_int_from(body, i) or self.try_entry(body, i)
-                            or self.try_iter_loop(unit, body, i) or self.try_range(body, i)):
+                            or self.try_poll(unit, body, i) or self.try_cmp(body, i) or self.try_int_from(body, i) or self.try_identity_call(body, i) or self.try_entry(body, i)
+                            or self.try_iter_loop(unit, body, i) or self.try_search_loop(unit, body, i) or self.try_range(body, i)
+                            or self.try_unroll(unit, body, i)):
                         changed = True
                 i += 1
             if not changed and self.fold_known_switches(body):
